@@ -55,6 +55,21 @@
 (* position instead of the named one yields a different number.  Exact     *)
 (* kind "sitdim": sum_interaction_terms on a stack with a batch axis.      *)
 (*                                                                         *)
+(* Part "rel": the INPUT-RELATIONSHIP lattice - how x1 and x2 relate as     *)
+(* tensor OBJECTS.  Both are strided views (offset, shape, strides) into   *)
+(* one abstract memory; the relation ranges over: the same object, a       *)
+(* second view object with identical geometry, an equal clone (contiguous  *)
+(* or with different strides), a clone that differs in the last row only,  *)
+(* fresh values, views of ONE storage with different strides / offsets     *)
+(* (stepped rows, shifted, overlapping, a prefix with fewer rows, stepped   *)
+(* columns), the transposed view of a square input, an expanded (stride 0) *)
+(* row and a batch-expanded view.  The denotation reads the ROWS through    *)
+(* the element maps; a kernel may substitute x1 for x2 only when the two    *)
+(* are equal BY VALUE (RelValEq), which neither the address, nor the shape, *)
+(* nor the strides decide (RelOK).  Every kernel family is enumerated over  *)
+(* every relation, direct calls and the views that slicing the lazily       *)
+(* evaluated kernel(X) builds.                                             *)
+(*                                                                         *)
 (* Exact kinds "arcmask" (the ArcKernel embedding with an activity         *)
 (* indicator delta_func on quarter-turn phases: inactive coordinates embed *)
 (* at the ORIGIN, hence squared chord lengths 0 / w^2 / 2 w^2 / 4 w^2) and *)
@@ -262,6 +277,100 @@ DimsOK ==
           /\ \A p \in 0..c.nb : DimValid([c EXCEPT !.pos = p])                                        \* ... at every valid position
           /\ (c.pos # c.nb => \E r \in 0..(NAxes(c) - 1) : LET t == [c EXCEPT !.rot = r] S == SitShape(t)
                                IN S[Len(S) - 2] < SizeOf(t, "K")))                                     \* the default position -3 holds FEWER than K entries in some cell
+
+\* ============================== rel: how x1 and x2 relate as tensor OBJECTS ======================
+\* One abstract memory of elements; the element of row r, column k of the base arrays has address r * C + k (C columns).
+\*   array A: rows 0 .. 2n-1 (one storage);  array B: rows 2n .. 3n-1 (a SECOND storage), row r of B either copies a row of A or is fresh.
+\* A tensor is a view [off, shape, st] (rank 2, or 3 with a leading batch axis); its element at index idx is memory[off + sum_k idx[k] * st[k]].
+\* x1 and x2 of a cell are two such views; the covariance matrix is DEFINED on the rows read through the views:
+\*   K[.., i, j] = k(row i of x1, row j of x2)      (documented covariance function, whatever the objects x1 and x2 are).
+\* Kernels shortcut "x1 is x2" (LinearKernel / SpectralDeltaKernel / RFFKernel: root decomposition; covar_dist / sq_dist / hamming_dist: zero
+\* diagonal, shared norms; ProductKernel: lazy product; SpectralMixtureKernel: shared reshaping).  The shortcut is admissible iff x1 = x2 BY VALUE.
+Rels == {"same", "alias", "clone", "sclone", "lastrow", "fresh", "stride", "offset", "overlap", "prefix", "transpose", "expand", "colstride", "batchexp"}
+ElemRels == {"transpose", "colstride"}               \* regroup ELEMENTS into new rows: only for kernels whose input domain is all of R^d
+LazyRels == {"alias", "stride", "offset", "overlap", "prefix"}     \* the pairs of views that kernel(A)[rows, columns] builds (LazyEvaluatedKernelTensor._getitem)
+RowDomainFams == {"hamming", "gskl", "cyl"}          \* one-hot rows / [mean, log variance] rows / rows inside the unit ball
+ExplicitFams  == {"linear", "sdelta", "hamming", "rff"}           \* an x1-equals-x2 test in the kernel's own forward
+LdbFams == {"rbf", "matern15", "matern25", "rq", "periodic", "linear", "polynomial", "constant", "cosine", "sm"}
+RelFams == Fams \cup {"rff"}
+RelSpace == [fam : RelFams, d : {2}, ard : BOOLEAN, adims : {FALSE}, comp : {"plain", "scale", "sum", "product", "addstruct"}, batch : {"none"}, force : {"none"},
+             mode : {"full", "diag"}, rel : Rels, how : {"direct", "lazy"}, ldb : BOOLEAN]
+
+RelCols(s) == IF s.fam = "hamming" THEN 3 * s.d ELSE IF s.fam = "gskl" THEN 2 * s.d ELSE s.d     \* one-hot over a vocabulary of 3 / [means, log variances]
+RelN(s)    == IF s.rel = "transpose" THEN RelCols(s) ELSE 4                                      \* a transposed view has the same shape only for a square input
+RelView1(s) == LET n == RelN(s) C == RelCols(s)
+               IN CASE s.rel \in {"sclone", "colstride"} -> [off |-> 0, shape |-> <<n, C>>, st |-> <<2 * C, 1>>]      \* A[::2]  /  A.view(n, 2C)[:, :C]
+                    [] s.rel = "batchexp" -> [off |-> 0, shape |-> <<2, n, C>>, st |-> <<n * C, C, 1>>]              \* A.view(2, n, C)
+                    [] OTHER -> [off |-> 0, shape |-> <<n, C>>, st |-> <<C, 1>>]                                     \* A[:n]
+RelView2(s) == LET n == RelN(s) C == RelCols(s)
+               IN CASE s.rel \in {"same", "alias"} -> RelView1(s)
+                    [] s.rel \in {"clone", "sclone", "lastrow", "fresh"} -> [off |-> 2 * n * C, shape |-> <<n, C>>, st |-> <<C, 1>>]     \* array B
+                    [] s.rel = "stride"    -> [off |-> 0,     shape |-> <<n, C>>,     st |-> <<2 * C, 1>>]           \* A[::2]
+                    [] s.rel = "offset"    -> [off |-> n * C, shape |-> <<n, C>>,     st |-> <<C, 1>>]               \* A[n:]
+                    [] s.rel = "overlap"   -> [off |-> C,     shape |-> <<n, C>>,     st |-> <<C, 1>>]               \* A[1:n+1]
+                    [] s.rel = "prefix"    -> [off |-> 0,     shape |-> <<n - 1, C>>, st |-> <<C, 1>>]               \* A[:n-1]
+                    [] s.rel = "transpose" -> [off |-> 0,     shape |-> <<n, C>>,     st |-> <<1, C>>]               \* A[:n].t(), n = C
+                    [] s.rel = "expand"    -> [off |-> 0,     shape |-> <<n, C>>,     st |-> <<0, 1>>]               \* A[0:1].expand(n, C)
+                    [] s.rel = "colstride" -> [off |-> 0,     shape |-> <<n, C>>,     st |-> <<2 * C, 2>>]           \* A.view(n, 2C)[:, ::2]
+                    [] s.rel = "batchexp"  -> [off |-> 0,     shape |-> <<2, n, C>>,  st |-> <<0, C, 1>>]            \* A[:n].expand(2, n, C)
+\* row r (1-based) of array B copies row RelCopy[r] (0-based) of array A; -1: fresh values
+RelCopy(s) == [r \in 1..RelN(s) |-> CASE s.rel = "clone" -> r - 1
+                                      [] s.rel = "sclone" -> 2 * (r - 1)
+                                      [] s.rel = "lastrow" -> IF r = RelN(s) THEN 0 - 1 ELSE r - 1
+                                      [] OTHER -> 0 - 1]
+RelVal(s, e) == LET C == RelCols(s) n == RelN(s) r == e \div C
+                IN IF r >= 2 * n /\ RelCopy(s)[r - 2 * n + 1] >= 0 THEN RelCopy(s)[r - 2 * n + 1] * C + (e % C) ELSE e     \* value identity of memory element e
+VNumel(v) == IF Len(v.shape) = 2 THEN v.shape[1] * v.shape[2] ELSE v.shape[1] * v.shape[2] * v.shape[3]
+VElem(v, p) == LET L == Len(v.shape)                                                                  \* address of the p-th element (0-based, row major)
+               IN v.off + (p % v.shape[L]) * v.st[L] + ((p \div v.shape[L]) % v.shape[L - 1]) * v.st[L - 1]
+                        + (IF L = 3 THEN (p \div (v.shape[2] * v.shape[3])) * v.st[1] ELSE 0)
+VElems(v) == [p \in 1..VNumel(v) |-> VElem(v, p - 1)]
+RelSameObj(s)     == s.rel = "same"
+RelSamePtr(s)     == RelView1(s).off = RelView2(s).off                                                \* data_ptr
+RelSameShape(s)   == RelView1(s).shape = RelView2(s).shape
+RelSameStrides(s) == RelView1(s).st = RelView2(s).st
+RelValEq(s) == RelSameShape(s) /\ \A p \in 1..VNumel(RelView1(s)) : RelVal(s, VElems(RelView1(s))[p]) = RelVal(s, VElems(RelView2(s))[p])     \* torch.equal
+RelShare(s) == \E p \in 1..VNumel(RelView1(s)), q \in 1..VNumel(RelView2(s)) : VElems(RelView1(s))[p] = VElems(RelView2(s))[q]                    \* overlapping memory
+RelFirstRowEq(s) == \A k \in 1..RelCols(s) : RelVal(s, VElems(RelView1(s))[k]) = RelVal(s, VElems(RelView2(s))[k])
+
+RelValid(s) ==
+  /\ s \in RelSpace
+  /\ (s.fam # "rff" => Valid([fam |-> s.fam, d |-> s.d, ard |-> s.ard, adims |-> FALSE, comp |-> s.comp, batch |-> "none", mode |-> "gt", force |-> "none"]))
+  /\ (s.fam = "rff" => s.comp = "plain" /\ s.ard)
+  /\ \/ (s.ard <=> s.fam \in ArdFams \cup {"sm", "rff"})                                 \* ARD wherever the kernel offers it ...
+     \/ (s.fam \in TwoPath /\ s.comp = "plain" /\ ~s.ldb)                                \* ... the two-path kernels also without: the hand-written Function
+  /\ (s.comp \in {"scale", "sum"} => s.fam \in ExplicitFams)
+  /\ (s.comp = "product" => s.fam # "rff")                                               \* ProductKernel has its own x1-equals-x2 test
+  /\ (s.ldb => s.comp = "plain" /\ s.fam \in LdbFams /\ s.how = "direct")                \* kernel(x1, x2, last_dim_is_batch = True)
+  /\ (s.rel \in ElemRels => s.fam \notin RowDomainFams)
+  /\ (s.mode = "diag" => RelValEq(s))                                                    \* Kernel.__call__: "diag: If True, it must be the case that x1 == x2"
+  /\ (s.how = "lazy" => s.mode = "full" /\ s.rel \in LazyRels /\ s.fam \notin GradFams)   \* index expressions of multi-output kernels: C06
+RelCells == {s \in RelSpace : RelValid(s)}
+\* the slices of kernel(A)[sl1, sl2] that build the two views: <<start, stop, step>> in rows of A
+RelSlice(s, v) == LET C == RelCols(s) IN <<v.off \div C, (v.off \div C) + v.shape[1] * (v.st[1] \div C), v.st[1] \div C>>
+RelOut(s) == [n |-> RelN(s), cols |-> RelCols(s), v1 |-> RelView1(s), v2 |-> RelView2(s), copy |-> RelCopy(s), e1 |-> VElems(RelView1(s)), e2 |-> VElems(RelView2(s)),
+              sameobj |-> RelSameObj(s), sameptr |-> RelSamePtr(s), sameshape |-> RelSameShape(s), samestrides |-> RelSameStrides(s), valeq |-> RelValEq(s),
+              share |-> RelShare(s), sl1 |-> IF s.how = "lazy" THEN RelSlice(s, RelView1(s)) ELSE <<>>, sl2 |-> IF s.how = "lazy" THEN RelSlice(s, RelView2(s)) ELSE <<>>]
+RelOK ==
+  Part = "rel" =>
+    /\ RelValid(c) /\ out = RelOut(c)
+    /\ \A p \in 1..VNumel(RelView1(c)) : out.e1[p] >= 0 /\ out.e1[p] < 2 * RelN(c) * RelCols(c)                      \* x1 lives in array A
+    /\ \A p \in 1..VNumel(RelView2(c)) : out.e2[p] >= 0 /\ out.e2[p] < 3 * RelN(c) * RelCols(c)
+    \* what does and what does not decide "x1 equals x2": identity implies it, equal geometry at one address implies it, nothing weaker does
+    /\ (RelSameObj(c) => RelSamePtr(c) /\ RelSameShape(c) /\ RelSameStrides(c))
+    /\ (RelSamePtr(c) /\ RelSameShape(c) /\ RelSameStrides(c) => RelValEq(c))
+    /\ (c.rel \in {"stride", "transpose", "expand", "colstride", "batchexp"} => RelSamePtr(c) /\ RelSameShape(c) /\ ~RelSameStrides(c) /\ ~RelValEq(c))   \* same address, same shape, NOT equal
+    /\ (c.rel \in {"stride", "expand", "batchexp", "lastrow"} => RelFirstRowEq(c) /\ ~RelValEq(c))                   \* equal in the leading row / batch element only
+    /\ (c.rel \in {"clone", "sclone"} => RelValEq(c) /\ ~RelSamePtr(c) /\ ~RelShare(c) /\ (c.rel = "sclone" <=> ~RelSameStrides(c)))     \* equal, in another storage
+    /\ (c.rel = "alias" => ~RelSameObj(c) /\ RelValEq(c))
+    /\ (c.rel \in {"offset", "overlap"} => ~RelSamePtr(c) /\ RelSameStrides(c) /\ ~RelValEq(c) /\ (c.rel = "overlap" <=> RelShare(c)))
+    /\ (c.rel = "prefix" => RelSamePtr(c) /\ RelSameStrides(c) /\ ~RelSameShape(c) /\ ~RelValEq(c))
+    /\ (c.rel = "fresh" => ~RelShare(c) /\ ~RelFirstRowEq(c))
+    \* every kernel family (in this composition) meets every relation its input domain admits, and every sliceable one through kernel(A)[.., ..]
+    /\ \A r \in Rels : (r \in ElemRels => c.fam \notin RowDomainFams) => RelValid([c EXCEPT !.rel = r, !.mode = "full", !.how = "direct"])
+    /\ (c.fam \notin GradFams /\ ~c.ldb => \A r \in LazyRels : RelValid([c EXCEPT !.rel = r, !.mode = "full", !.how = "lazy"]))
+    /\ (RelValEq(c) => RelValid([c EXCEPT !.mode = "diag", !.how = "direct"]))
+ASSUME ExplicitFams \subseteq RelFams /\ LdbFams \subseteq Fams
 
 \* ============================== layout ==========================================================
 LayoutCells ==[n1 : 1..3, n2 : 1..3, d : 1..3, order : 1..2]
@@ -507,12 +616,14 @@ Init == /\ c \in (CASE Part = "lattice" -> {s \in Cells : Valid(s)}
                     [] Part = "layout" -> LayoutCells
                     [] Part = "args" -> ArgCells
                     [] Part = "dims" -> DimCells
+                    [] Part = "rel" -> RelCells
                     [] OTHER -> Instances)
         /\ out = (CASE Part = "lattice" -> PathOf(c)
                     [] Part = "layout" -> LET m == OutputsPerInput(c) IN [rows |-> c.n1 * m, cols |-> c.n2 * m, perm1 |-> Perm(c.n1, m), perm2 |-> Perm(c.n2, m)]
                     [] Part = "exact" -> Expected(c)
                     [] Part = "args" -> ArgOut(c)
                     [] Part = "dims" -> DimOut(c)
+                    [] Part = "rel" -> RelOut(c)
                     [] OTHER -> <<>>)
 Next == UNCHANGED vars
 Spec == Init /\ [][Next]_vars
